@@ -166,6 +166,29 @@ class Hist:
     return self.mutation()
 
 
+K_CYCLE_MEMO = ("cyclic graph: answer depends on earlier queries answered by the same solver instance "
+                "(state memo entries computed under the provisional cycle assumption are reused)")
+
+
+def query_node(q):
+  return {"has": 1, "can": 1, "vis": 2, "filter": 2, "fdata": 2, "bindings": 2, "data": 2}.get(q[0])
+
+
+def cycle_behind(real, q):
+  """True iff a node lying on a cycle is backward-reachable from the query's node."""
+  i = query_node(q)
+  if i is None:
+    return False
+  d = tg.export(real.p, real.vars)
+  if not d.cyclic:
+    return False
+  ref = tg.Ref(d)
+  for c in ref.back_reach(q[i]):
+    if any(c in ref.back_reach(p) for p in d.pred[c]):
+      return True
+  return False
+
+
 def solver_count(p):
   return len(p.calculate_metrics().solver_metrics)
 
@@ -174,6 +197,17 @@ def run_history(rng, style, nsteps, counters):
   """Returns witness dict or None."""
   h = Hist(rng, style)
   h.seed_graph()
+  if style == "cap":
+    # drive one variable past the 64-bindings-per-variable cap (extra data collapse into default_data)
+    v = 0
+    for i in range(rng.randint(60, 70)):
+      try:
+        h.do(("bind", v, min(79, 10 + i), [], h.rnode()))
+      except Exception:  # pylint: disable=broad-except
+        counters["rejected_ops"] += 1
+    h.next_data = 79
+    counters["cap_histories"] += 1
+    counters["max_bindings_seen"] = max(counters["max_bindings_seen"], len(h.real.vars[0].bindings))
   last_q = None
   live_count_after_q = None
   mut_since_q = []
@@ -228,8 +262,11 @@ def run_history(rng, style, nsteps, counters):
     counters["replica_comparisons"] += 1
     if fresh != live:
       mech = "+".join(sorted(set(survived))) if survived else "none(solver was rebuilt)"
+      key = f"stale answer; solver survived mutators: {mech}"
+      if not survived and cycle_behind(h.real, q):
+        key = K_CYCLE_MEMO
       return {"what": "answer on the long-lived program differs from a freshly built replica",
-              "key": f"stale answer; solver survived mutators: {mech}",
+              "key": key,
               "ops": h.ops, "query": q, "live": live, "fresh": fresh,
               "mutators_since_previous_query": list(mut_since_q), "solver_survived": survived}
     if isinstance(live, bool):
@@ -252,7 +289,7 @@ def child(arg):
   fps = []
   samples = []
   for i in range(arg["count"]):
-    style = rng.choice(["mixed", "mixed", "cond", "paste"])
+    style = rng.choice(["mixed", "mixed", "mixed", "cond", "cond", "paste", "paste", "cap"])
     res = run_history(random.Random(rng.randrange(1 << 40)), style, rng.randint(10, arg.get("maxlen", 60)),
                       counters)
     if res.get("what"):
